@@ -56,6 +56,7 @@ pub fn explore(opts: &Opts) -> Explored {
         (OpK::Neg, 4),
         (OpK::Softmax, 3),
         (OpK::Softmax, 2),
+        (OpK::Softmax, 5),
     ];
     let local = par(opts, sh.len(), |i, l| {
         let d = &sh[i];
@@ -86,6 +87,12 @@ pub fn explore(opts: &Opts) -> Explored {
                     1 => vals_signed(n, 0, var),
                     2 => vals_small(n, 0, var),
                     3 => vals_small_signed(n, 0, var),
+                    5 => {
+                        // last-dimension rows at very different levels (each exponential still finite)
+                        let last = *d.last().unwrap();
+                        let (hi, lo) = if IS_F32 { (80.0, -30.0) } else { (700.0, -100.0) };
+                        (0..n).map(|i| (if (i / last) % 2 == 0 { hi } else { lo }) - ((i * 3 + var as usize) % 4) as f64).collect()
+                    }
                     _ => {
                         // saturating magnitudes (still far inside the range of f32)
                         let sat = [-500.0, 30.0, -100.0, 89.0, 100.0, -30.0, 700.0, -89.0, 500.0, -700.0];
